@@ -1,7 +1,7 @@
 CONSTANTS
   Defects = {"fw_ignored"}
-  Family = "errors"
-  Deep = TRUE
+  Family = "errors_small"
+  Deep = FALSE
 INIT Init
 NEXT Next
 CHECK_DEADLOCK FALSE
